@@ -198,7 +198,7 @@ def gen_cases(rng, tier):
     for ni, n in enumerate(nets):
         others = [nets[(ni + 1) % len(nets)], 'bitcoin', 'litecoin']
         for si, (sec, pubc, pubu) in enumerate(pool):
-            if not big and si % 4 != ni % 4:
+            if not big and si % 8 != ni % 8:
                 continue
             for comp in (True, False):
                 hints = ['-', n] + ([others[si % 3]] if si % 4 == 0 else [])
@@ -247,10 +247,12 @@ def gen_cases(rng, tier):
     # every depth, every boundary child, on two rows
     sec, pubc, pubu = pool[3]
     for d in range(256):
-        km = km_tokens(True, sec, pubc, pubu, True, b'\x5a' * 32, d, b'\1\2\3\4', CHILDREN[d % len(CHILDREN)], 'bitcoin', 'segwit', False)
-        add('rtx', 'rtx prv %s hdkey - - f t' % km)
-        km = km_tokens(False, sec, pubc, pubu, True, b'\xa5' * 32, d, b'\xff' * 4, CHILDREN[(d + 3) % len(CHILDREN)], 'testnet', 'p2sh-segwit', True)
-        add('rtx', 'rtx pub %s fromwif testnet n t' % km)
+        if big or d % 2 == 0:
+            km = km_tokens(True, sec, pubc, pubu, True, b'\x5a' * 32, d, b'\1\2\3\4', CHILDREN[d % len(CHILDREN)], 'bitcoin', 'segwit', False)
+            add('rtx', 'rtx prv %s hdkey - - f t' % km)
+        if big or d % 2 == 1:
+            km = km_tokens(False, sec, pubc, pubu, True, b'\xa5' * 32, d, b'\xff' * 4, CHILDREN[(d + 3) % len(CHILDREN)], 'testnet', 'p2sh-segwit', True)
+            add('rtx', 'rtx pub %s fromwif testnet n t' % km)
     # out-of-range depth / child, foreign hint, uncompressed HD keys (BIP32 has no uncompressed form)
     for d, c in ((256, 0), (-1, 0), (0, 2 ** 32), (0, -1)):
         add('rtx', 'rtx prv %s hdkey - - f t' % km_tokens(True, sec, pubc, pubu, True, b'\1' * 32, d, b'\0' * 4, c, 'bitcoin', 'legacy', False))
